@@ -134,13 +134,13 @@ func drivers() []*sk.Driver {
 	add := func(s ...string) func(m *am.Machine) { return func(m *am.Machine) { m.Add(am.S(s), nil) } }
 	rem := func(s ...string) func(m *am.Machine) { return func(m *am.Machine) { m.Remove(am.S(s), nil) } }
 	return []*sk.Driver{
-		mk(def{name: "toggle|read-strings", schema: plain, verify: names, bound: b(2, 3),
+		mk(def{name: "toggle|read-strings", schema: plain, verify: names, bound: b(3, 4),
 			muts:  [][]func(*am.Machine){{add("A"), rem("A")}},
 			views: []string{"String", "StringAll", "String", "Inspect"}}),
-		mk(def{name: "toggle|read-times", schema: plain, verify: names, bound: b(2, 3),
+		mk(def{name: "toggle|read-times", schema: plain, verify: names, bound: b(3, 4),
 			muts:  [][]func(*am.Machine){{add("A", "B"), add("B"), rem("A")}},
 			views: []string{"Time", "Export", "Clock", "Time"}}),
-		mk(def{name: "two-mutators|read", schema: plain, verify: names, bound: b(1, 2),
+		mk(def{name: "two-mutators|read", schema: plain, verify: names, bound: b(2, 3),
 			muts:  [][]func(*am.Machine){{add("A"), add("C")}, {add("B"), rem("B")}},
 			views: []string{"StringAll", "Time", "String"}}),
 	}
